@@ -263,6 +263,15 @@ def _conv_task(qts):
                                 continue
                             if gl != refs[:n]:
                                 part.violation(sig + ":differs from Scalar.GetValue", {"array": gl, "scalars": refs[:n]}, snippet)
+                            elif n and kind != "tuple" and got is not a.GetValues():
+                                # the answer belongs to the caller: edit it in place and ask again
+                                for i in range(n):
+                                    got[i] = -777.0
+                                again = [float(g) for g in a.GetValues(v)]
+                                part.count("evaluations")
+                                if again != refs[:n] or [float(x) for x in a.GetValues()] != vals[:n]:
+                                    part.violation(sig + ":second answer follows the caller's edit of the first", {"array": again, "scalars": refs[:n]},
+                                                   snippet.replace("    got = list(a.GetValues(%r))" % v, "    first = a.GetValues(%r)\n    for i in range(len(first)): first[i] = -777.0\n    got = list(a.GetValues(%r))" % (v, v)))
                             if kind != "ndarray" and type(got) is not type(a.values) and n:
                                 part.violation(sig + ":container kind changed", {"got": type(got).__name__}, snippet)
                             part.add("outcomes", ("conv", kind, n, gl == refs[:n]))
